@@ -1,1 +1,300 @@
 import GolibsVerif.Model.Lin
+/-
+Helper lemmas for the generic linearizability argument (Props/Lin.lean).
+-/
+namespace Lin
+
+variable {σ ι ρ : Type}
+
+/-! ### seqRun -/
+
+theorem seqRun_snoc (o : Obj σ ι ρ) (s : σ) (l : List ι) (i : ι) :
+    seqRun o s (l ++ [i]) =
+      ((o.step (seqRun o s l).1 i).1, (seqRun o s l).2 ++ [(o.step (seqRun o s l).1 i).2]) := by
+  induction l generalizing s with
+  | nil => simp [seqRun]
+  | cons x xs ih =>
+    simp only [List.cons_append, seqRun]
+    rw [ih]
+
+/-! ### run: generic induction principle -/
+
+theorem run_induct [DecidableEq ρ] (o : Obj σ ι ρ) (P : Sys σ ι ρ → Prop)
+    (hstep : ∀ s e s', P s → s.ev o e = some s' → P s')
+    (es : List (Ev ι ρ)) (s1 s : Sys σ ι ρ) (h1 : P s1) (h : s1.run o es = some s) : P s := by
+  induction es generalizing s1 with
+  | nil =>
+    simp only [Sys.run, Option.some.injEq] at h
+    exact h ▸ h1
+  | cons e es ih =>
+    simp only [Sys.run] at h
+    cases hev : s1.ev o e with
+    | none => simp [hev] at h
+    | some s' =>
+      simp only [hev, Option.bind_some] at h
+      exact ih s' (hstep s1 e s' h1 hev) h
+
+/-! ### sequential-history invariant -/
+
+def SeqInv (o : Obj σ ι ρ) (s0 : σ) (s : Sys σ ι ρ) : Prop :=
+  seqRun o s0 (s.order.map (·.2.1)) = (s.st, s.order.map (·.2.2))
+
+theorem SeqInv_init (o : Obj σ ι ρ) (s0 : σ) : SeqInv o s0 (Sys.init s0 : Sys σ ι ρ) := by
+  simp [SeqInv, Sys.init, seqRun]
+
+theorem SeqInv_step [DecidableEq ρ] (o : Obj σ ι ρ) (s0 : σ) (s : Sys σ ι ρ) (e : Ev ι ρ)
+    (s' : Sys σ ι ρ) (hs : SeqInv o s0 s) (h : s.ev o e = some s') : SeqInv o s0 s' := by
+  unfold SeqInv at *
+  cases e with
+  | inv t i =>
+    simp only [Sys.ev] at h
+    split at h
+    · simp only [Option.some.injEq] at h
+      subst h
+      exact hs
+    · simp at h
+  | lin t =>
+    simp only [Sys.ev] at h
+    split at h
+    · simp only [Option.some.injEq] at h
+      subst h
+      simp only [List.map_append, List.map_cons, List.map_nil]
+      rw [seqRun_snoc, hs]
+    · simp at h
+  | ret t r =>
+    simp only [Sys.ev] at h
+    split at h
+    · split at h
+      · simp only [Option.some.injEq] at h
+        subst h
+        exact hs
+      · simp at h
+    · simp at h
+
+theorem SeqInv_run [DecidableEq ρ] (o : Obj σ ι ρ) (s0 : σ) (es : List (Ev ι ρ))
+    (s1 s : Sys σ ι ρ) (h1 : SeqInv o s0 s1) (h : s1.run o es = some s) : SeqInv o s0 s :=
+  run_induct o (SeqInv o s0) (fun s e s' => SeqInv_step o s0 s e s') es s1 s h1 h
+
+/-! ### real-time invariant -/
+
+/-- `a` occurs strictly before `b` in `l` -/
+def Before (l : List Nat) (a b : Nat) : Prop := ∃ l1 l2, l = l1 ++ a :: l2 ∧ b ∈ l2
+
+def Sys.ids (s : Sys σ ι ρ) : List Nat := s.order.map (·.1)
+
+structure RTInv (s : Sys σ ι ρ) : Prop where
+  ids_lt : ∀ x ∈ s.ids, x < s.pos
+  nodup : s.ids.Nodup
+  pend : ∀ t id i, s.th t = .pending id i → id < s.pos ∧ id ∉ s.ids
+  pend_inj : ∀ t t' id i i', s.th t = .pending id i → s.th t' = .pending id i' → t = t'
+  linz : ∀ t id i r, s.th t = .linearized id i r → id ∈ s.ids
+  ret_mem : ∀ a pa, (a, pa) ∈ s.retPos → a ∈ s.ids
+  ret_before : ∀ a pa, (a, pa) ∈ s.retPos → ∀ b ∈ s.ids, pa < b → Before s.ids a b
+
+theorem RTInv_init (s0 : σ) : RTInv (Sys.init s0 : Sys σ ι ρ) := by
+  constructor <;> simp [Sys.init, Sys.ids]
+
+theorem setTh_eq (f : Nat → TSt ι ρ) (t : Nat) (v : TSt ι ρ) (x : Nat) :
+    setTh f t v x = if x = t then v else f x := rfl
+
+theorem RTInv_step [DecidableEq ρ] (o : Obj σ ι ρ) (s : Sys σ ι ρ) (e : Ev ι ρ)
+    (s' : Sys σ ι ρ) (hs : RTInv s) (h : s.ev o e = some s') : RTInv s' := by
+  cases e with
+  | inv t i =>
+    simp only [Sys.ev] at h
+    split at h
+    · rename_i hidle
+      simp only [Option.some.injEq] at h
+      subst h
+      constructor
+      · intro x hx
+        exact Nat.lt_succ_of_lt (hs.ids_lt x hx)
+      · exact hs.nodup
+      · intro t' id i' ht
+        simp only [setTh_eq] at ht
+        split at ht
+        · simp only [TSt.pending.injEq] at ht
+          obtain ⟨rfl, _⟩ := ht
+          refine ⟨Nat.lt_succ_self _, ?_⟩
+          intro hmem
+          exact Nat.lt_irrefl _ (hs.ids_lt _ hmem)
+        · have := hs.pend t' id i' ht
+          exact ⟨Nat.lt_succ_of_lt this.1, this.2⟩
+      · intro t1 t2 id i1 i2 h1 h2
+        simp only [setTh_eq] at h1 h2
+        split at h1 <;> split at h2
+        · subst_vars; rfl
+        · simp only [TSt.pending.injEq] at h1
+          have := (hs.pend t2 id i2 h2).1
+          omega
+        · simp only [TSt.pending.injEq] at h2
+          have := (hs.pend t1 id i1 h1).1
+          omega
+        · exact hs.pend_inj t1 t2 id i1 i2 h1 h2
+      · intro t' id i' r ht
+        simp only [setTh_eq] at ht
+        split at ht
+        · simp at ht
+        · exact hs.linz t' id i' r ht
+      · exact hs.ret_mem
+      · exact hs.ret_before
+    · simp at h
+  | lin t =>
+    simp only [Sys.ev] at h
+    split at h
+    · rename_i id i hpend
+      simp only [Option.some.injEq] at h
+      subst h
+      have hid := hs.pend t id i hpend
+      have hids' : ∀ (r : ρ) (s2 : Sys σ ι ρ), s2.order = s.order ++ [(id, i, r)] →
+          s2.ids = s.ids ++ [id] := by
+        intro r s2 h2; simp [Sys.ids, h2]
+      have hids := hids' _ _ (rfl : ({ s with
+            st := (o.step s.st i).1,
+            th := setTh s.th t (.linearized id i (o.step s.st i).2), pos := s.pos + 1,
+            order := s.order ++ [(id, i, (o.step s.st i).2)] } : Sys σ ι ρ).order = _)
+      constructor
+      · intro x hx
+        rw [hids] at hx
+        simp only [List.mem_append, List.mem_singleton] at hx
+        rcases hx with hx | rfl
+        · exact Nat.lt_succ_of_lt (hs.ids_lt x hx)
+        · exact Nat.lt_succ_of_lt hid.1
+      · rw [hids]
+        rw [List.nodup_append]
+        refine ⟨hs.nodup, by simp, ?_⟩
+        intro a ha b hb
+        simp only [List.mem_singleton] at hb
+        subst hb
+        intro hab
+        subst hab
+        exact hid.2 ha
+      · intro t' id' i' ht
+        rw [hids]
+        simp only [setTh_eq] at ht
+        split at ht
+        · simp at ht
+        · rename_i hne
+          have h' := hs.pend t' id' i' ht
+          refine ⟨Nat.lt_succ_of_lt h'.1, ?_⟩
+          simp only [List.mem_append, List.mem_singleton, not_or]
+          refine ⟨h'.2, ?_⟩
+          intro heq
+          subst heq
+          exact hne (hs.pend_inj t' t id' i' i ht hpend)
+      · intro t1 t2 id' i1 i2 h1 h2
+        simp only [setTh_eq] at h1 h2
+        split at h1
+        · simp at h1
+        · split at h2
+          · simp at h2
+          · exact hs.pend_inj t1 t2 id' i1 i2 h1 h2
+      · intro t' id' i' r ht
+        rw [hids]
+        simp only [setTh_eq] at ht
+        split at ht
+        · simp only [TSt.linearized.injEq] at ht
+          obtain ⟨rfl, _, _⟩ := ht
+          simp
+        · have := hs.linz t' id' i' r ht
+          simp [this]
+      · intro a pa ha
+        rw [hids]
+        have := hs.ret_mem a pa ha
+        simp [this]
+      · intro a pa ha b hb hlt
+        rw [hids] at hb ⊢
+        simp only [List.mem_append, List.mem_singleton] at hb
+        rcases hb with hb | rfl
+        · obtain ⟨l1, l2, hl, hb2⟩ := hs.ret_before a pa ha b hb hlt
+          refine ⟨l1, l2 ++ [id], ?_, ?_⟩
+          · rw [hl]; simp
+          · simp [hb2]
+        · obtain ⟨l1, l2, hl⟩ := List.append_of_mem (hs.ret_mem a pa ha)
+          refine ⟨l1, l2 ++ [b], ?_, ?_⟩
+          · rw [hl]; simp
+          · simp
+    · simp at h
+  | ret t r =>
+    simp only [Sys.ev] at h
+    split at h
+    · rename_i id i r' hlin
+      split at h
+      · simp only [Option.some.injEq] at h
+        subst h
+        have hmem := hs.linz t id i r' hlin
+        constructor
+        · intro x hx
+          exact Nat.lt_succ_of_lt (hs.ids_lt x hx)
+        · exact hs.nodup
+        · intro t' id' i' ht
+          simp only [setTh_eq] at ht
+          split at ht
+          · simp at ht
+          · have := hs.pend t' id' i' ht
+            exact ⟨Nat.lt_succ_of_lt this.1, this.2⟩
+        · intro t1 t2 id' i1 i2 h1 h2
+          simp only [setTh_eq] at h1 h2
+          split at h1
+          · simp at h1
+          · split at h2
+            · simp at h2
+            · exact hs.pend_inj t1 t2 id' i1 i2 h1 h2
+        · intro t' id' i' r'' ht
+          simp only [setTh_eq] at ht
+          split at ht
+          · simp at ht
+          · exact hs.linz t' id' i' r'' ht
+        · intro a pa ha
+          simp only [List.mem_append, List.mem_singleton, Prod.mk.injEq] at ha
+          rcases ha with ha | ⟨rfl, _⟩
+          · exact hs.ret_mem a pa ha
+          · exact hmem
+        · intro a pa ha b hb hlt
+          simp only [List.mem_append, List.mem_singleton, Prod.mk.injEq] at ha
+          rcases ha with ha | ⟨rfl, rfl⟩
+          · exact hs.ret_before a pa ha b hb hlt
+          · have : b < s.pos := hs.ids_lt b hb
+            omega
+      · simp at h
+    · simp at h
+
+theorem RTInv_run [DecidableEq ρ] (o : Obj σ ι ρ) (es : List (Ev ι ρ))
+    (s1 s : Sys σ ι ρ) (h1 : RTInv s1) (h : s1.run o es = some s) : RTInv s :=
+  run_induct o RTInv (fun s e s' => RTInv_step o s e s') es s1 s h1 h
+
+/-! ### from `Before` to `idxOf?` -/
+
+theorem idxOf?_isSome_of_mem {l : List Nat} {b : Nat} (h : b ∈ l) : ∃ i, l.idxOf? b = some i := by
+  cases hb : l.idxOf? b with
+  | none => exact absurd h (List.idxOf?_eq_none_iff.mp hb)
+  | some i => exact ⟨i, rfl⟩
+
+theorem idxOf?_of_split (l1 l2 : List Nat) (a b : Nat) (hnd : (l1 ++ a :: l2).Nodup)
+    (hb : b ∈ l2) :
+    ∃ ia ib, (l1 ++ a :: l2).idxOf? a = some ia ∧ (l1 ++ a :: l2).idxOf? b = some ib ∧ ia < ib := by
+  induction l1 with
+  | nil =>
+    simp only [List.nil_append, List.nodup_cons] at hnd
+    obtain ⟨ib, hib⟩ := idxOf?_isSome_of_mem hb
+    have hne : a ≠ b := fun h => hnd.1 (h ▸ hb)
+    refine ⟨0, ib + 1, ?_, ?_, Nat.succ_pos _⟩
+    · simp [List.idxOf?_cons]
+    · simp [List.idxOf?_cons, hne, hib]
+  | cons x xs ih =>
+    simp only [List.cons_append, List.nodup_cons] at hnd
+    obtain ⟨ia, ib, h1, h2, hlt⟩ := ih hnd.2
+    have hxa : x ≠ a := fun h => hnd.1 (by simp [h])
+    have hxb : x ≠ b := fun h => hnd.1 (by simp [h, hb])
+    refine ⟨ia + 1, ib + 1, ?_, ?_, Nat.succ_lt_succ hlt⟩
+    · simp only [List.cons_append, List.idxOf?_cons]
+      simp [hxa, h1]
+    · simp only [List.cons_append, List.idxOf?_cons]
+      simp [hxb, h2]
+
+theorem Before.idxOf? {l : List Nat} {a b : Nat} (hnd : l.Nodup) (h : Before l a b) :
+    ∃ ia ib, l.idxOf? a = some ia ∧ l.idxOf? b = some ib ∧ ia < ib := by
+  obtain ⟨l1, l2, rfl, hb⟩ := h
+  exact idxOf?_of_split l1 l2 a b hnd hb
+
+end Lin
